@@ -17,6 +17,7 @@ import (
 	"github.com/KafScale/platform/internal/verif/fakes3"
 	"github.com/KafScale/platform/internal/verif/sched"
 	"github.com/KafScale/platform/internal/verif/vh"
+	"github.com/KafScale/platform/pkg/cache"
 	"github.com/KafScale/platform/pkg/metadata"
 )
 
@@ -44,6 +45,8 @@ const (
 	c41CacheSet  c41Op = "cache-set"   // SegmentCache.SetSegment on the partition's first segment key
 	c41CacheGet  c41Op = "cache-get"   // SegmentCache.GetSegment + read of the returned bytes
 	c41ReadSmall c41Op = "fetch-small" // handleFetch offset 1 with a small maxBytes (range-read path)
+	c41CacheSetB c41Op = "cache-set-b" // SetSegment of another key (evicts under cache pressure)
+	c41CacheSetC c41Op = "cache-set-c" // SetSegment of a third key
 )
 
 var c41Ops = []c41Op{c41Produce, c41Produce0, c41FetchOld, c41FetchTail, c41Flush, c41CacheSet, c41CacheGet, c41ReadSmall}
@@ -55,7 +58,7 @@ type c41World struct {
 	seg0   []byte
 }
 
-func c41Setup(points bool, buffered bool) *c41World {
+func c41Setup(points bool, buffered bool, tiny ...bool) *c41World {
 	w := &c41World{bucket: fakes3.NewBucket()}
 	s3 := fakes3.New(w.bucket, "b1")
 	s3.NoPoints = !points
@@ -65,6 +68,10 @@ func c41Setup(points bool, buffered bool) *c41World {
 	w.h.logConfig.ReadAheadSegments = 1
 	w.h.logConfig.CacheEnabled = true
 	w.h.readAhead = 1
+	if len(tiny) > 0 && tiny[0] {
+		// room for one segment of this world (about 150 bytes each): every insert of another key evicts
+		w.h.cache = cache.NewSegmentCache(200)
+	}
 	// three flushed segments so that fetches exercise cache, S3 and prefetch paths
 	for i := 0; i < 3; i++ {
 		r, err := vProduceOne(w.h, "t", 0, -1, enum.SimpleBatch(fmt.Sprintf("seed%d", i), 1, 8))
@@ -125,6 +132,14 @@ func (w *c41World) run(op c41Op, tag string) {
 	case c41CacheGet:
 		if b, ok := w.h.cache.GetSegment("default/t", 0, 0); ok {
 			c41Touch(b)
+		}
+	case c41CacheSetB:
+		if w.seg0 != nil {
+			w.h.cache.SetSegment("default/t", 0, 1000, w.seg0)
+		}
+	case c41CacheSetC:
+		if w.seg0 != nil {
+			w.h.cache.SetSegment("default/t", 0, 2000, w.seg0[:len(w.seg0)-1])
 		}
 	}
 }
@@ -217,17 +232,26 @@ func c41NewRaces() (found []c41Race, ignored int) {
 // c41Buffered marks a scenario that starts with two unflushed batches in the write buffer.
 const c41Buffered c41Op = "world:buffered"
 
+// c41Tiny marks a scenario whose segment cache holds one segment only (every insert of another key
+// evicts), with the first segment resident: readers hold handed-out bytes while inserts evict.
+const c41Tiny c41Op = "world:tiny-cache"
+
 func c41Split(ops []c41Op) (bool, []c41Op) {
 	if len(ops) > 0 && ops[0] == c41Buffered {
 		return true, ops[1:]
 	}
+	if len(ops) > 0 && ops[0] == c41Tiny {
+		return false, ops[1:]
+	}
 	return false, ops
 }
+
+func c41IsTiny(ops []c41Op) bool { return len(ops) > 0 && ops[0] == c41Tiny }
 
 func c41Body(all []c41Op) func(s *sched.Sched) {
 	return func(s *sched.Sched) {
 		buffered, ops := c41Split(all)
-		w := c41Setup(true, buffered)
+		w := c41Setup(true, buffered, c41IsTiny(all))
 		defer w.h.coordinator.Stop()
 		for i, op := range ops {
 			i, op := i, op
@@ -276,6 +300,13 @@ func TestVerifC41(t *testing.T) {
 		}
 	}
 	scen = append(scen, []c41Op{c41Buffered, c41Produce0, c41FetchTail, c41FetchTail}, []c41Op{c41Buffered, c41Flush, c41FetchTail, c41FetchTail})
+	// tiny-cache world: a reader of handed-out cache bytes against inserts that evict (and may recycle)
+	scen = append(scen,
+		[]c41Op{c41Tiny, c41FetchOld, c41CacheSetB},
+		[]c41Op{c41Tiny, c41FetchOld, c41CacheSetB, c41CacheSetC},
+		[]c41Op{c41Tiny, c41FetchOld, c41FetchOld},
+		[]c41Op{c41Tiny, c41FetchOld, c41ReadSmall, c41CacheSetB},
+	)
 	rep.SetInfo("scenarios", len(scen))
 	var rp struct {
 		Ops     []c41Op
@@ -340,7 +371,7 @@ func TestVerifC41(t *testing.T) {
 		}
 		for it := 0; it < iters; it++ {
 			buffered, real := c41Split(ops)
-			w := c41Setup(false, buffered)
+			w := c41Setup(false, buffered, c41IsTiny(ops))
 			var wg sync.WaitGroup
 			for i, op := range real {
 				wg.Add(1)
